@@ -940,7 +940,12 @@ func (in *Interp) prepareCall(fr *frame, call *ssa.CallCommon, pos token.Pos) (V
 		if recv.T == nil {
 			in.goPanicf(pos, "nilderef", "invalid memory address or nil pointer dereference (method %s on nil interface)", call.Method.Name())
 		}
-		if bi, ok := in.modelMethod(recv, call.Method); ok {
+		if o, isO := recv.V.(OpaqueV); isO && strings.HasPrefix(o.Tag, "lib:") {
+			// method of an opaque library object created during package initialisation
+			in.note("init-lenient:method " + call.Method.Name())
+			sig := call.Method.Type().(*types.Signature)
+			return FuncV{Builtin: "lenientmethod", Recv: sig}, nil
+		} else if bi, ok := in.modelMethod(recv, call.Method); ok {
 			fn = bi
 		} else {
 			f := in.eng.prog.LookupMethod(recv.T, call.Method.Pkg(), call.Method.Name())
@@ -1241,6 +1246,11 @@ func (in *Interp) lenientResult(fn *ssa.Function) Value {
 	res := fn.Signature.Results()
 	mk := func(t types.Type) Value {
 		switch u := t.Underlying().(type) {
+		case *types.Interface:
+			if u.NumMethods() == 1 && u.Method(0).Name() == "Error" {
+				return IfaceV{}
+			}
+			return IfaceV{T: types.Typ[types.UnsafePointer], V: OpaqueV{Tag: "lib:" + fn.Name()}}
 		case *types.Pointer:
 			if _, isStruct := u.Elem().Underlying().(*types.Struct); isStruct {
 				o := in.newObj(OpaqueV{Tag: "lib:" + fn.Name()}, u.Elem(), "lib")
